@@ -10,7 +10,7 @@ cash, longer sequences) but stay inside the 32-bit budget of the trace specifica
 import json
 import random
 
-from .broker_rig import BrokerRig, Observer, cur
+from .broker_rig import BrokerRig, Observer, cur, NO_QUOTE
 
 ASSETS = ["A", "B", "C"]
 PIDS = ["P1", "P2", "P3"]
@@ -102,10 +102,17 @@ def gen_trace(seed, n_calls=45):
                     if heldnow:
                         a = rng2.choice(heldnow)
                         bad = rng2.choice([dict(bid=-2250, ask=-1750), dict(bid=-250, ask=250), dict(bid=-40001, ask=-39999)])
+                        # ... sometimes while another held asset has no quote at all (NaN): the update is refused all the same
+                        others = [x for x in heldnow if x != a]
+                        nq = rng2.choice(others) if others and rng2.random() < 0.4 else None
+                        if nq:
+                            do(dict(op="price", asset=nq, bid=NO_QUOTE, ask=NO_QUOTE))
                         do(dict(op="price", asset=a, bid=bad["bid"], ask=bad["ask"]))
                         ev = do(dict(op="update", t=now + rng2.choice([0, 1, 1440])))
                         now = ev["post"]["now"]
                         do(dict(op="price", asset=a, bid=cur[a]["bid"], ask=cur[a]["ask"]))
+                        if nq:
+                            do(dict(op="price", asset=nq, bid=cur[nq]["bid"], ask=cur[nq]["ask"]))
             elif r < 0.67:                                 # price move
                 a = rng.choice(ASSETS)
                 q = rand_quote(rng)
@@ -160,7 +167,10 @@ def gen_trace(seed, n_calls=45):
                     if g + abs(q) > MAX_GROSS:
                         continue
                     gross[(p, a)] = g + abs(q)
-                    do(dict(op="pf_txn", pid=p, asset=a, qty=q, px=px, comm=rng.choice([0, 125, 999]), t=t))
+                    comm = rng.choice([0, 125, 999])
+                    if q < 0 and px > 0 and rng2.random() < 0.2:
+                        comm = px * -q              # a sale whose commission eats the proceeds exactly: total cost 0, still a fill
+                    do(dict(op="pf_txn", pid=p, asset=a, qty=q, px=px, comm=comm, t=t))
     return dict(id=seed, t0=t0, quote=quotes, fee=fee, ev=[to_json_event(e, rig_quote) for e, rig_quote in _with_quotes(evs, quotes)])
 
 
@@ -186,6 +196,31 @@ def gen_big_trace(seed):
     tr = record_calls(seed, t0, quotes, fee, calls, printing=(seed % 3 == 2))
     tr["big"] = dict(n=n, r=r, sign=sign, asset=a)
     return tr
+
+
+def gen_batch_trace(seed):
+    """Many orders pending at ONE in-hours update: 17-40 orders of one to three portfolios, buys and sells mixed, several
+    per asset and side, submitted while the exchange is closed and executed together at the open.  Sells before buys,
+    and within a side the order of submission (portfolio by portfolio): nothing in C04 depends on how many there are."""
+    rng = random.Random(seed * 6007 + 5)
+    t0 = (DAY0 + 3) * 1440 + 600                    # Monday 2020-01-06 10:00: closed
+    quotes = dict((a, rand_quote(rng)) for a in ASSETS)
+    fee = rng.choice([dict(kind="zero", c=0, t=0), dict(kind="percent", c=5, t=1)])
+    pids = PIDS[:rng.randint(1, 3)]
+    calls = [dict(op="sub_acct", a=600000000)]
+    for p in pids:
+        calls += [dict(op="create", pid=p), dict(op="sub_pf", pid=p, a=200000000)]
+    n = rng.randint(17, 40)
+    gross = {}
+    for _ in range(n):
+        p, a = rng.choice(pids), rng.choice(ASSETS)
+        q = rng.choice([-1, 1]) * rng.randint(1, 6)
+        if gross.get((p, a), 0) + abs(q) > MAX_GROSS:
+            continue
+        gross[(p, a)] = gross.get((p, a), 0) + abs(q)
+        calls.append(dict(op="submit", pid=p, asset=a, qty=q))
+    calls += [dict(op="update", t=t0 + 269), dict(op="update", t=t0 + 270), dict(op="update", t=t0 + 1440)]
+    return record_calls(seed, t0, quotes, fee, calls, printing=(seed % 4 == 1))
 
 
 def record_calls(ident, t0, quotes, fee, calls, printing=False, ctor_funds=False, seconds=0.0):
